@@ -18,7 +18,8 @@ pub struct Cfg {
     /// FDT symbol size: 512 => an instance is several packets ("mid-FDT" exists)
     pub fdt_e: u16,
     /// 0 = three plain objects; 1 = the first is transferred twice, the second is a carousel object
-    /// (1 s between transfers), the third has a start time 1 s after t0
+    /// (1 s between transfers), the third has a start time 1 s after t0; 2 = transfer counts 0 and 3, a
+    /// carousel with a zero delay
     #[serde(default)]
     pub catalog_kind: u8,
 }
@@ -29,6 +30,12 @@ pub fn catalog_of(kind: u8) -> Vec<ObjSpec> {
         v[0].count = 2;
         v[1].carousel = Some(Carousel::Delay(1000));
         v[2].start_ms = Some(1000);
+    }
+    if kind == 2 {
+        // degenerate and extreme transfer counts: 0 (flute sends such an object once) and a large one
+        v[0].count = 0;
+        v[1].count = 3;
+        v[2].carousel = Some(Carousel::Delay(0));
     }
     v
 }
@@ -249,6 +256,7 @@ pub fn configs() -> Vec<Cfg> {
                     v.push(Cfg { full_fdt, multiplex, queues, fdt_e, catalog_kind: 0 });
                     if fdt_e == 512 {
                         v.push(Cfg { full_fdt, multiplex, queues, fdt_e, catalog_kind: 1 });
+                        v.push(Cfg { full_fdt, multiplex, queues, fdt_e, catalog_kind: 2 });
                     }
                 }
             }
